@@ -220,7 +220,14 @@ def run(c):
     tx_recs = []
     for p in txs:
         if c.get("notok"):
-            tx_recs.append({"open": 1, "R": int(round(p[0] / 1e-6)), "Z": int(round(p[1] / 1e-6)), "psi": int(round(p[2] / qpsi)), "mono": 1, "inwall": 1, "insol": 1,
+            # (find_critical only) - with an axis in the domain the visibility rule applies as in the full cases
+            m1 = 1
+            if tos:
+                drop, far = mono_metric(psi, axis, p)
+                if 0.0003 < drop < 0.003 or 0.5e-4 < far < 2e-4:
+                    rec["skip"] = "monotonicity test at its threshold"
+                m1 = 1 if (drop <= 0.001 and far <= 1e-4) else 0
+            tx_recs.append({"open": 1, "R": int(round(p[0] / 1e-6)), "Z": int(round(p[1] / 1e-6)), "psi": int(round(p[2] / qpsi)), "mono": m1, "inwall": 1, "insol": 1,
                             "below": 1, "psinorm": 1.0})
             continue
         drop, far = mono_metric(psi, axis, p)
